@@ -103,6 +103,46 @@ inductive EffKind where | none | d | dm | md
 inductive Src where | d | m
   deriving Repr, DecidableEq, Inhabited
 
+/-- one reactive read of the fetcher.  Which source is read may depend on what this run has read before:
+`ifFlag i` reads source `i` only if source 0, as read earlier in this run, was non-zero
+(`if flag.get() != 0 { extra.get() }`); `idx` reads source `1 + flag % (k-1)` (`inputs[idx.get()].get()`). -/
+inductive Rd where
+  | src (i : Nat)
+  | ifFlag (i : Nat)
+  | idx
+  deriving Repr, DecidableEq, Inhabited
+
+/-- the fetcher: the reads made when its future is created (closure body, and the async block up to its
+first `await`: both happen before the task first suspends on it) and the reads made after the `await` of
+the harness's receiver, when the result is produced -/
+structure Fetcher where
+  sync : List Rd := []
+  post : List Rd := []
+  deriving Repr, DecidableEq, Inhabited
+
+/-- what one run of the fetcher has read so far: the value of source 0 (if read) and every read in order -/
+structure Run where
+  flag : Option Val := none
+  log : List (Nat × Val) := []
+  deriving Repr, DecidableEq, Inhabited
+
+def Run.read (src : List Val) (r : Run) (i : Nat) : Run :=
+  let v := src[i]?.getD 0
+  { flag := if i = 0 then some v else r.flag, log := r.log ++ [(i, v)] }
+
+def Run.exec (src : List Val) (r : Run) : Rd → Run
+  | .src i => r.read src i
+  | .ifFlag i => if r.flag.getD 0 ≠ 0 then r.read src i else r
+  | .idx => r.read src (1 + r.flag.getD 0 % (src.length - 1))
+
+def Run.execAll (src : List Val) (l : List Rd) (r : Run) : Run := l.foldl (Run.exec src) r
+
+/-- the values a run has read, in order: what the fetcher computes its result from -/
+def Run.vals (r : Run) : List Val := r.log.map (·.2)
+
+/-- the default fetcher reads every source when its future is created -/
+def allSources (k : Nat) : Fetcher := { sync := (List.range k).map .src }
+
 structure Cfg where
   srcs : List Val := [0]
   init : Option Val := none
@@ -117,6 +157,8 @@ structure Cfg where
   /-- a `leptos_server::LocalResource`: every fetch first waits one `Executor::tick()` (a task that is
   spawned when the fetch's future is first polled and fires a oneshot); `refetch()` is a signal write -/
   isLocal : Bool := false
+  /-- the fetcher's reads (plain derived over signals only); `none` = every source, when the future is created -/
+  fx : Option Fetcher := none
   deriving Repr, DecidableEq, Inhabited
 
 /-- what a spawned task other than the derived's and the effect's does -/
@@ -155,6 +197,11 @@ structure State where
   nf : Nat := 1
   curInputs : List Val := []
   curStatus : FStatus := .pending
+  -- the fetcher's program, what the current (or last) run of it has read, the sources the derived is
+  -- subscribed to (it never clears its sources: the set only grows)
+  fx : Fetcher := {}
+  run : Run := {}
+  dSub : List Nat := []
   -- source memo `sm` (only used when `viaMemo`): `Dirty` or `Clean`, cached value
   viaMemo : Bool := false
   smDirty : Bool := false
@@ -235,7 +282,12 @@ def hasEffect (k : EffKind) : Bool := match k with | .none => false | _ => true
 def hasMemo (k : EffKind) : Bool := match k with | .dm => true | .md => true | _ => false
 
 def init (c : Cfg) : State :=
-  { eff := c.eff, src := c.srcs, value := c.init, curInputs := c.srcs, viaMemo := c.viaMemo || c.res,
+  let fx := c.fx.getD (allSources c.srcs.length)
+  let viaMemo := c.viaMemo || c.res
+  -- the constructor creates fetch 0's future and polls it once: its `sync` reads happen now
+  let run := if viaMemo then {} else Run.execAll c.srcs fx.sync {}
+  { eff := c.eff, src := c.srcs, value := c.init, viaMemo := viaMemo,
+    curInputs := (if viaMemo then c.srcs else run.vals), fx := fx, run := run, dSub := run.log.map (·.1),
     smVal := c.srcs, res := c.res, once := c.once, isLocal := c.isLocal, tick0 := c.isLocal, tickFired := !c.isLocal,
     eDirty := hasEffect c.eff, eChan := hasEffect c.eff, eWoken := hasEffect c.eff }
 
@@ -271,7 +323,8 @@ def mMarkDirty (s : State) : State :=
 def setSrc (s : State) (i : Nat) (v : Val) : State :=
   if i < s.src.length then
     let s := { s with src := setAt s.src i v }
-    let s := if s.viaMemo then smMarkDirty s else dMarkDirty s
+    -- the signal marks its subscribers: the source memo, or the derived if it has read this source
+    let s := if s.viaMemo then smMarkDirty s else if i ∈ s.dSub then dMarkDirty s else s
     if s.mRan then mMarkDirty s else s
   else s
 
@@ -287,11 +340,19 @@ def notifySubs (s : State) : State :=
   let s := { s with aws := s.aws.map wakeAw }
   { s with dstate := prev, notifs := s.notifs + 1 }
 
+/-- the fetcher's reads after the `await`, at the current source values (tracked like the others: the derived
+subscribes to what it reads) -/
+def postReads (s : State) : State :=
+  let run := if s.viaMemo then s.run else Run.execAll s.src s.fx.post s.run
+  { s with run := run, dSub := s.dSub ++ run.log.map (·.1),
+           curInputs := (if s.viaMemo then s.curInputs else run.vals) }
+
 /-- `fut.await` returned `fetchFn curInputs` (pc = fetching, curStatus = ready) -/
 def applyResult (s : State) : State :=
   -- `drop(suspense_ids)`
   let s := { s with pending := s.pending - s.idsHeld, idsHeld := 0 }
   let s := { s with curStatus := .done, pc := .waiting, dataReg := false }
+  let s := postReads s
   if s.version = s.fetchVersion then
     notifySubs { s with value := some (fetchFn s.curInputs), manualLive := false }
   else s
@@ -311,7 +372,10 @@ def startFetch (s : State) : State :=
            else
              let s := (smUpdate s).1
              -- a local resource: the new future's first poll (below, at `fut.await`) spawns its tick task
-             { s with nf := s.nf + 1, curInputs := inputsNow s, curStatus := .pending,
+             -- the new future's `sync` reads (tracked: the derived subscribes to what it reads)
+             let run := if s.viaMemo then s.run else Run.execAll s.src s.fx.sync {}
+             { s with nf := s.nf + 1, curInputs := (if s.viaMemo then inputsNow s else run.vals),
+                      curStatus := .pending, run := run, dSub := s.dSub ++ run.log.map (·.1),
                       tickFired := !s.isLocal,
                       aws := if s.isLocal then s.aws ++ [{ kind := .tick, tag := s.nf + 1 }] else s.aws }
   let s := { s with firstRun := false, loading := true, version := s.version + 1, dataReg := false }
@@ -522,8 +586,12 @@ def runIdle : Nat → State → State
 /-- every started fetch has completed (or was dropped) and no task is woken -/
 def settled (s : State) : Bool := decide (s.curStatus ≠ .pending) && (readyList s).isEmpty
 
+/-- what the fetcher reads when run from scratch on the current source values -/
+def evalNow (s : State) : List Val :=
+  if s.viaMemo then s.src else (Run.execAll s.src (s.fx.sync ++ s.fx.post) {}).vals
+
 /-- the value the derived must hold at a settled point -/
-def expected (s : State) : Option Val := if s.manualLive then s.lastManual else some (fetchFn s.src)
+def expected (s : State) : Option Val := if s.manualLive then s.lastManual else some (fetchFn (evalNow s))
 
 def lastSeen (s : State) : Option (Option Val) := s.eLog.getLast?.map (·.1)
 
